@@ -875,10 +875,11 @@ impl Gen {
         let mut guard = 0;
         let burst_at = if self.p.read_burst > 0 { self.rng.below(n_events as u64) as usize } else { usize::MAX };
         let mut burst_done = false;
+        let mut burst_emitted = 0usize;
         let mut emitted_main = 0usize;
         while emitted_main < n_events && guard < n_events * 20 {
             guard += 1;
-            emitted_main = self.events.len() - if burst_done { self.p.read_burst as usize } else { 0 };
+            emitted_main = self.events.len().saturating_sub(burst_emitted);
             if !burst_done && emitted_main >= burst_at {
                 burst_done = true;
                 for _ in 0..self.p.read_burst {
@@ -887,6 +888,7 @@ impl Gen {
                     self.model.abort(tx);
                     if let Some(s) = s {
                         self.emit(Event::Auto(s));
+                        burst_emitted += 1;
                     }
                 }
                 continue;
